@@ -28,6 +28,8 @@ def check(chk):
     r25(chk, m)
     r26(chk, m)
     r27(chk, m)
+    from . import shared
+    shared.grouping_rules(chk, m, 'R2.8')
     chk.decline('equality of the processed text with an independent TeX evaluation of the program (value-level over token '
                 'streams; a static encoding would be an interpreter for TeX expansion)')
     chk.decline('delimited-parameter matching for concrete argument shapes; \\csname / \\expandafter reordering results')
@@ -81,7 +83,9 @@ def r21(chk, m):
         ('parameter beyond those collected', [X, H(0), d3, Y], [None, [a1]], ['X', 'Y']),
     ]
     for label, definition, params, want in cases:
-        it = A.Interp(model=m, scope=fn, hooks=DefHooks(definition), max_iter=len(definition) + 1, exc_edges=False)
+        hk = DefHooks(definition)
+        hk.should_inline = A.private_only
+        it = A.Interp(model=m, scope=fn, hooks=hk, max_iter=len(definition) + 1, exc_edges=False, inline=2)
         outs = it.run_function(fn, env={'definition': list(definition), 'params': params})
         chk.paths += len(outs)
         got = set()
@@ -93,21 +97,47 @@ def r21(chk, m):
 
 
 def r22(chk, m):
-    R = chk.rule('R2.2', 'both argument collectors start the parameter list with one placeholder so that the n-th argument sits at '
-                 'index n, only append to it, and pass it unchanged to expandDef', 2)
-    for q in ('NewCommand.invoke', 'Definition.invoke'):
-        fn = m.func('plasTeX', q)
-        chk.analysed(fn)
-        inits = [text(n.value) for n in M.walk_no_nested(fn.node) if isinstance(n, ast.Assign) and text(n.targets[0]) == 'params']
-        calls = [c for c in M.calls_in(fn.node) if isinstance(c.func, ast.Attribute) and text(c.func.value) == 'params']
-        other = [text(c) for c in calls if c.func.attr != 'append']
-        stores = [text(n) for n in M.walk_no_nested(fn.node) if isinstance(n, (ast.Assign, ast.AugAssign, ast.Delete))
-                  and any(text(t).startswith('params[') or (isinstance(n, ast.AugAssign) and text(t) == 'params')
-                          for t in (n.targets if not isinstance(n, ast.AugAssign) else [n.target]))]
-        passed = [text(c) for c in M.calls_in(fn.node) if M.call_name(c) == 'expandDef']
-        ok = inits == ['[None]'] and not other and not stores and passed and all(p.replace(' ', '') == 'expandDef(self.definition,params)' for p in passed)
-        chk.verdict(R, '%s parameter list' % q, ok,
-                    '%s: params initialised by %s, non-append uses %s, stores %s, handed over as %s' % (q, inits, other, stores, passed), chk.where(fn))
+    R = chk.rule('R2.2', 'Definition.invoke (abstract interpretation over a parameter text and a token stream): the list handed to '
+                 'expandDef starts with one placeholder so that the n-th argument sits at index n; undelimited parameters are '
+                 'read with readArgument, a delimited one takes the tokens up to its delimiter', 3)
+    from .shared import TokenStreamHooks
+    fn = m.func('plasTeX', 'Definition.invoke')
+    chk.analysed(fn)
+    Definition = m.cls('plasTeX', 'Definition')
+    H = lambda i: T('#%d' % i, CC_PARAMETER, '#')
+    d1, d2 = T('1', CC_OTHER, '1'), T('2', CC_OTHER, '2')
+    DOT = T('.', CC_OTHER, '.')
+    x, y = T('x', CC_LETTER), T('y', CC_LETTER)
+    cases = [('#1#2', [H(0), d1, H(1), d2], [], "[None, ['arg0'], ['arg1']]"),
+             ('#1.#2', [H(0), d1, DOT, H(1), d2], [x, y, DOT], "[None, ['x', 'y'], ['arg0']]"),
+             ('.#1', [DOT, H(0), d1], [DOT], "[None, ['arg0']]")]
+
+    class H2(TokenStreamHooks):
+        def call(self, interp, node, fname, args, kwargs, state):
+            if fname == 'tex.readArgument':
+                k = state.env.get('__reads', 0)
+                state.env['__reads'] = k + 1
+                return [A.Sym('arg%d' % k)]
+            if fname == 'expandDef' and len(args) == 2:
+                state.env['__params'] = args[1]
+                return []
+            return None
+    for label, pattern, stream, want in cases:
+        h = H2(m, Definition, stream, stream)
+        h.keep = lambda ev: False
+        h.should_inline = A.private_only
+        it = A.Interp(model=m, scope=fn, hooks=h, max_iter=len(pattern) + len(stream) + 2, exc_edges=False, inline=2)
+        outs = it.run_function(fn, env={'self.args': list(pattern), 'self.definition': [x]})
+        chk.paths += len(outs)
+        got = set()
+        for kind, s2, v in outs:
+            if kind != 'return':
+                continue
+            p = s2.env.get('__params')
+            got.add(repr([labels(e) if isinstance(e, list) else e for e in p]) if isinstance(p, list) else 'TOP')
+        chk.decide(R, 'Definition.invoke: parameter text %s' % label, got, {want},
+                   'with the parameter text %s and the input %s the list handed to expandDef is %s, expected %s'
+                   % (label, labels(stream), sorted(got), want), chk.where(fn))
 
 
 class NCHooks(SelfHooks):
@@ -133,7 +163,8 @@ def r23(chk, m):
     Macro = m.cls('plasTeX', 'Macro')
     for label, opt in (('no optional argument', None), ('empty default', []), ('non-empty default', [T('d', CC_LETTER)])):
         h = NCHooks(m, NewCommand)
-        it = A.Interp(model=m, scope=fn, hooks=h, max_iter=4, exc_edges=False)
+        h.should_inline = A.private_only
+        it = A.Interp(model=m, scope=fn, hooks=h, max_iter=4, exc_edges=False, inline=2)
         outs = it.run_function(fn, env={'self.opt': opt, 'self.nargs': 3, 'self.macroMode': m.class_const(Macro, 'MODE_NONE'),
                                         'self.definition': []})
         chk.paths += len(outs)
@@ -141,7 +172,12 @@ def r23(chk, m):
         for kind, s, v in outs:
             reads = s.env.get('__reads', ())
             params = s.env.get('__params')
-            res.add((tuple((r[0], bool(r[1]), r[2]) for r in reads), len(params) if isinstance(params, list) else -1))
+            shape = -1
+            if isinstance(params, list):
+                shape = len(params)
+                if params[:1] != [None] or [labels(p) if isinstance(p, list) else p for p in params[1:]] != [['arg%d' % i] for i in range(len(params) - 1)]:
+                    shape = 'wrong order/placeholder: %s' % ([labels(p) if isinstance(p, list) else p for p in params],)
+            res.add((tuple((r[0], bool(r[1]), r[2]) for r in reads), shape))
         if opt is None:
             want = {((('None', False, '#1'), ('None', False, '#2'), ('None', False, '#3')), 4)}
         else:
@@ -157,29 +193,56 @@ def r25(chk, m):
                  '(Definition.invoke) dispatches on can be stored by its writer (the Args branch of readArgumentAndSource)', 2)
     ras = m.func('plasTeX.TeX', 'TeX.readArgumentAndSource')
     chk.analysed(ras)
-    br = [n for n in M.walk_no_nested(ras.node) if isinstance(n, ast.If) and re.search(r"type in \['Args'\]", text(n.test))]
-    need(len(br) == 1, "readArgumentAndSource: the 'Args' branch was not found")
-    loops = [n for n in br[0].body if isinstance(n, ast.For)]
-    need(len(loops) == 1, "readArgumentAndSource: 'Args' loop not found")
-    loop = loops[0]
+    from .shared import TokenStreamHooks
+    TeX = m.cls('plasTeX.TeX', 'TeX')
     stored = set()
+    undetermined = []
     for cc in range(16):
-        t = A.Sym('TOK', truthy=True, attrs={'catcode': cc, 'distinct': True})
-        h = SelfHooks(m, ras.cls)
-        h.keep = lambda ev: ev[0] == 'call'
-        it = A.Interp(model=m, scope=ras, hooks=h, max_iter=1, exc_edges=False)
-        outs = it.block(loop.body, [A.State({text(loop.target): t, 'args': []})])
-        for kind in ('fall', 'continue'):
-            for s, v in outs.get(kind, []):
-                if any(e[1] == 'args.append' and t in e[2] for e in s.trace):
-                    stored.add(cc)
+        t = A.Sym('TOK', truthy=True, attrs={'catcode': cc, 'char': 'x', 'distinct': True})
+        stop = A.Sym('BRACE', truthy=True, attrs={'catcode': CC_BGROUP, 'char': '{', 'distinct': True})
+        h = TokenStreamHooks(m, TeX, [t, stop], [t, stop])
+        h.keep = lambda ev: False
+        h.should_inline = A.private_only
+        it = A.Interp(model=m, scope=ras, hooks=h, max_iter=3, exc_edges=False, inline=2)
+        env = {a.arg: None for a in ras.node.args.args[1:] + ras.node.args.kwonlyargs}
+        env.update({'type': 'Args', 'delim': ',', 'expanded': False, 'stripLeadingWhitespace': True, 'charsubs': []})
+        outs = it.run_function(ras, env=env)
+        chk.paths += len(outs)
+        res = set()
+        for kind, s2, v in outs:
+            if kind != 'return':
+                continue
+            if isinstance(v, tuple) and v and isinstance(v[0], list):
+                res.add(t in v[0])
+            else:
+                res.add(None)
+        if res == {True}:
+            stored.add(cc)
+        elif res != {False}:
+            undetermined.append((cc, sorted(map(repr, res))))
+    need(not undetermined, "readArgumentAndSource(type='Args'): what is stored for a token is not determined: %s" % undetermined[:4])
     need(len(stored) >= 10, "the 'Args' writer stores only %s" % sorted(stored))
     inv = m.func('plasTeX', 'Definition.invoke')
     chk.analysed(inv)
     Token = m.cls('plasTeX.Tokenizer', 'Token')
+    # reader: the variables that walk over the stored parameter text (for <v> in iter(self.args) and aliases of that iterator)
+    iters = {'self.args', 'iter(self.args)'}
+    changed = True
+    while changed:
+        changed = False
+        for n in M.walk_no_nested(inv.node):
+            if isinstance(n, ast.Assign) and len(n.targets) == 1 and isinstance(n.targets[0], ast.Name) \
+               and text(n.value).replace(' ', '') in iters and n.targets[0].id not in iters:
+                iters.add(n.targets[0].id)
+                iters.add('iter(%s)' % n.targets[0].id)
+                changed = True
+    walkers = {t.id for n in M.walk_no_nested(inv.node) if isinstance(n, ast.For) and text(n.iter).replace(' ', '') in iters
+               for t in ast.walk(n.target) if isinstance(t, ast.Name)}
+    need(walkers, 'Definition.invoke: no loop over the stored parameter text (self.args) found')
     tested = {}
     for n in M.walk_no_nested(inv.node):
-        if isinstance(n, ast.Compare) and text(n.left) == 'a.catcode' and isinstance(n.ops[0], ast.Eq):
+        if isinstance(n, ast.Compare) and isinstance(n.left, ast.Attribute) and n.left.attr == 'catcode' \
+           and isinstance(n.left.value, ast.Name) and n.left.value.id in walkers and isinstance(n.ops[0], ast.Eq):
             v = m.eval_const(inv, n.comparators[0])
             if isinstance(v, int):
                 tested[v] = n
